@@ -330,6 +330,24 @@ def handle : List String → Option String
     let (pts, r2) ← pMat pFloat r1
     let s ← pSpec r2
     pure (answer (do let m ← s.buildH; let I ← m.interpolate synthInterp f; I pts d ds ord) sArr)
+  | ["C07.aimroute", ctor, kind] => do
+    -- which object reaches `cls(...)`: the generated aim-weights default of the constructor on None / callable / array / other
+    let becke : Nat → AimArg Pt Float := fun k => .array [Float.ofNat k]      -- stands for BeckeWeights(order=k)
+    let arg ← (match kind with
+      | "none" => some none
+      | "callable" => some (some (.callable cbZ))
+      | "array" => some (some (.array [-1.0]))
+      | "other" => some (some .other)
+      | _ => none : Option (Option (AimArg Pt Float)))
+    let r ← (match ctor with
+      | "from_preset" => some (Gen.MolGrid.fromPreset_aim becke arg)
+      | "from_size" => some (Gen.MolGrid.fromSize_aim becke arg)
+      | "from_pruned" => some (Gen.MolGrid.fromPruned_aim becke arg)
+      | _ => none)
+    pure (match r with
+      | .callable _ => "ok callable"
+      | .other => "ok other"
+      | .array a => if a == [-1.0] then "ok array" else s!"ok becke {sFloats a}")
   | ["C07.defaults"] =>
     pure (s!"ok preset {Gen.MolGrid.fromPreset_default_rotate} {sBool Gen.MolGrid.fromPreset_default_store} " ++
       s!"size {Gen.MolGrid.fromSize_default_rotate} {sBool Gen.MolGrid.fromSize_default_store} " ++
